@@ -251,6 +251,7 @@ OPS = {
     "loaddropbox": lambda: op_load("fdropbox"),
     "marshcode27": lambda: op_marsh_code("f27"),
     "load38nocode": lambda: op_load_nocode("f38"),
+    "dis10classic": lambda: op_dis("f10", "classic"), "dis311classic": lambda: op_dis("f311", "classic"),
 }
 
 
